@@ -306,3 +306,14 @@ where
         }
     }
 }
+
+#[cfg(feature = "verif")]
+impl<S: State + Clone, SP: StateSpace<StateType = S>, G: Goal<S>> RRTStar<S, SP, G> {
+    /// Read-only copy of the search tree: (state, parent index, cost) per node, in storage order.
+    pub fn verif_snapshot(&self) -> Vec<(S, Option<usize>, f64)> {
+        self.tree
+            .iter()
+            .map(|n| (n.state.clone(), n.parent_index, n.cost))
+            .collect()
+    }
+}
